@@ -19,15 +19,15 @@ def lemmas():
               functions=["assemble_counting_chunks", "check_len_or_resize"],
               desc="counting step on the library-managed buffer (buffer length and chunk size symbolic): same obligations as the plain step"),
     ] + [
-        Lemma(name="C08.assemble_with_chunk_fitting.internal.c%d" % c, src="os.c", entry="h_fitting_internal", props=["C08", "C17"], timeout=900, replace=[R("assemble_asm"), R("nop_padding")],
-              defs={"FITC": str(c)}, unwindset=WS + ",assemble_with_chunk_fitting.0:3", functions=["assemble_with_chunk_fitting", "check_len_or_resize"], bounded="chunk size enumerated (c=%d)" % c, tier="quick" if c == 16 else "thorough",
+        Lemma(name="C08.assemble_with_chunk_fitting.internal.c%d" % c, src="os.c", entry="h_fitting_internal", props=["C08", "C17"], timeout=2400, replace=[R("assemble_asm"), R("nop_padding")],
+              defs={"FITC": str(c)}, unwindset=WS + ",assemble_with_chunk_fitting.0:3", functions=["assemble_with_chunk_fitting", "check_len_or_resize"], bounded="chunk size enumerated (c=%d)" % c, tier="thorough",
               desc="fitting step on the library-managed buffer: padding and the re-assembled instruction are written through the buffer pointer re-read after each room check (a pointer kept across a growth is a use after free), earlier bytes preserved, fails only when mremap fails")
         for c in (16, 13)] + [
         Lemma(name="C19.asm_assemble_file", src="os.c", entry="h_assemble_file", props=["C19", "C17"], timeout=600, object_bits=10, unwindset=WS,
-              replace=["asm_assemble_str/asm_assemble_str__f"], functions=["asm_assemble_file", "asm_mmap_file"], kf=["C19_PAGEMULT", "C19_EMPTY"],
+              replace=["asm_assemble_str/asm_assemble_str__f", "asm_assemble_string_counting_chunks/asm_assemble_string_counting_chunks__f"], functions=["asm_assemble_file", "asm_mmap_file"], kf=["C19_PAGEMULT", "C19_EMPTY"],
               desc="file entry point over the assumed open/fstat/mmap/munmap contracts (each may fail), file size symbolic up to three pages: the text handed to asm_assemble_str is a NUL-terminated string inside the mapping, the mapping is released once with its length, the result is that of the in-memory call unless an OS call failed"),
         Lemma(name="C19.asm_assemble_file_counting_chunks", src="os.c", entry="h_assemble_file_counting", props=["C19", "C17"], timeout=600, object_bits=10, unwindset=WS,
-              replace=["asm_assemble_string_counting_chunks/asm_assemble_string_counting_chunks__f"], functions=["asm_assemble_file_counting_chunks", "asm_mmap_file"], kf=["C19_PAGEMULT", "C19_EMPTY"],
+              replace=["asm_assemble_str/asm_assemble_str__f", "asm_assemble_string_counting_chunks/asm_assemble_string_counting_chunks__f"], functions=["asm_assemble_file_counting_chunks", "asm_mmap_file"], kf=["C19_PAGEMULT", "C19_EMPTY"],
               desc="counting file entry point, same obligations"),
         Lemma(name="C19.asm_create_bin_file", src="os.c", entry="h_bin_file", props=["C19", "C17"], timeout=600, object_bits=10, functions=["asm_create_bin_file"],
               desc="binary output over the assumed fopen/fwrite/fclose contracts: exactly buffer[0, offset) is handed to fwrite; EXIT_SUCCESS only if the file was created, every byte written and the stream closed without error"),
